@@ -45,6 +45,8 @@ enum Dup {
     None,
     DoneTwice,     // the first item's done event is repeated
     SameCallId,    // two items share one call id
+    /// three items; the third shares the FIRST item's call id (not adjacent after any sort)
+    SameCallIdNonAdjacent,
 }
 
 #[derive(Clone, Debug, PartialEq, Eq, Hash)]
@@ -107,10 +109,19 @@ fn item_args(i: &Item) -> String {
     }
 }
 
+/// The two item positions that share one call id, if the script has such a pair.
+fn shared_pair(s: &Script) -> Option<(usize, usize)> {
+    match s.dup {
+        Dup::SameCallId => Some((0, 1)),
+        Dup::SameCallIdNonAdjacent => Some((0, 2)),
+        _ => None,
+    }
+}
+
 fn call_id(s: &Script, pos: usize) -> String {
     // ids whose lexicographic order differs from their emission order (call_9 < call_10 < call_11
     // numerically, "call_10" < "call_11" < "call_9" as strings)
-    if s.dup == Dup::SameCallId && pos == 1 {
+    if (s.dup == Dup::SameCallId && pos == 1) || (s.dup == Dup::SameCallIdNonAdjacent && pos == 2) {
         "call_9".to_string()
     } else {
         format!("call_{}", 9 + pos)
@@ -221,6 +232,14 @@ fn scripts(tier: Tier) -> Vec<Script> {
             }
         }
     }
+    // a call id that comes back on a later, non-adjacent item (A, B, A)
+    for set in [vec![Item::WriteA, Item::WriteB, Item::Read], vec![Item::WriteB, Item::Read, Item::WriteA], vec![Item::Read, Item::WriteA, Item::WriteB]] {
+        for index in [Index::InOrder, Index::Missing, Index::Reversed] {
+            for via in [ArgsVia::DoneItem, ArgsVia::Deltas] {
+                out.push(Script { items: set.clone(), via, index: index.clone(), dup: Dup::SameCallIdNonAdjacent, done_marker: true, with_ids: true });
+            }
+        }
+    }
     out
 }
 
@@ -310,7 +329,18 @@ fn run_case(report: &Report, rt: &Arc<tokio::runtime::Runtime>, provider: &Provi
             } else {
                 outputs_in(&received[1])
             };
-            if got != expected_ids {
+            let same = if shared_pair(s).is_some() {
+                // which of the two items sharing a call id survives (and so where that id sorts) is
+                // not defined by the property: each id answered exactly once is
+                let mut a = got.clone();
+                a.sort();
+                let mut b = expected_ids.clone();
+                b.sort();
+                a == b
+            } else {
+                got == expected_ids
+            };
+            if !same {
                 let sig = if s.dup != Dup::None && got.len() > expected_ids.len() {
                     format!("C16:call_answered_twice:{:?}", s.dup)
                 } else if got.len() != expected_ids.len() {
@@ -324,21 +354,25 @@ fn run_case(report: &Report, rt: &Arc<tokio::runtime::Runtime>, provider: &Provi
     }
     // executions: file effects and tool_started frames
     let out = std::fs::read_to_string(app.root.join("out.txt")).unwrap_or_default();
-    if s.dup == Dup::SameCallId {
+    let marker_of = |it: &Item| match it {
+        Item::WriteA => Some("<A>"),
+        Item::WriteB => Some("<B>"),
+        _ => None,
+    };
+    if let Some((p, q)) = shared_pair(s) {
         // two items sharing one call id are ONE call; which of the two a loop keeps is not
         // defined by the property: only "at most one execution for that call id" is judged
-        let shared: usize = [("<A>", Item::WriteA), ("<B>", Item::WriteB)]
-            .iter()
-            .filter(|(_, it)| s.items.iter().take(2).any(|x| x == it))
-            .map(|(m, _)| out.matches(m).count())
-            .sum();
+        let shared: usize = [p, q].iter().filter_map(|&i| s.items.get(i)).filter_map(marker_of).map(|m| out.matches(m).count()).sum();
         if shared > 1 {
-            report.violation("C16:call_executed_twice:SameCallId", case(), &format!("two items sharing call id call_9 were both executed; out.txt = {out:?}"));
+            report.violation(&format!("C16:call_executed_twice:{:?}", s.dup), case(), &format!("two items sharing call id call_9 were both executed; out.txt = {out:?}"));
         }
     }
     for (marker, item) in [("<A>", Item::WriteA), ("<B>", Item::WriteB)] {
-        if s.dup == Dup::SameCallId {
-            break;
+        // items of the shared pair are judged above
+        if let Some((p, q)) = shared_pair(s) {
+            if s.items.get(p) == Some(&item) || s.items.get(q) == Some(&item) {
+                continue;
+            }
         }
         let n_marker = out.matches(marker).count();
         let present = calls.iter().any(|c| *c.2 == item);
@@ -360,7 +394,7 @@ fn run_case(report: &Report, rt: &Arc<tokio::runtime::Runtime>, provider: &Provi
         report.violation("C16:tool_call_bound", case(), &format!("{started} tool_started frames in one run"));
     }
     for (_, cid, it) in &calls {
-        if s.dup == Dup::SameCallId && cid == "call_9" {
+        if shared_pair(s).is_some() && cid == "call_9" {
             continue;
         }
         if !allowed(choice, item_tool(it)) {
@@ -387,20 +421,33 @@ fn run_case(report: &Report, rt: &Arc<tokio::runtime::Runtime>, provider: &Provi
     provider.forget(key);
 }
 
-fn run_endless(report: &Report, rt: &Arc<tokio::runtime::Runtime>, provider: &Provider, key: &str, stateless: bool) {
+fn run_endless(report: &Report, rt: &Arc<tokio::runtime::Runtime>, provider: &Provider, key: &str, stateless: bool, choice: &Choice) {
     let call = json!({"type": "response.output_item.done", "output_index": 0, "item": {"type": "function_call", "id": "fc", "call_id": "call_x", "name": "write", "arguments": json!({"path": "out.txt", "content": "<E>", "append": true}).to_string()}});
     provider.script(key, vec![Resp::Sse { chunks: vec![sse(&[json!({"type": "response.completed", "response": {"id": "r"}}), call, Value::String("[DONE]".into())])], abort: false }], true);
     let mut cfg = config(provider.endpoint(key));
     cfg.stateless_history = stateless;
+    cfg.tool_choice = choice_param(choice);
     let app = App::new(rt.clone(), Some(cfg));
     let thread = app.ensure_thread();
-    let _ = app.post_and_wait(&thread, "go", None, Duration::from_secs(20));
-    report.eval(Some(&("endless", stateless)));
+    let _ = app.post_and_wait(&thread, "go", None, Duration::from_secs(30));
+    report.eval(Some(&("endless", stateless, choice)));
     let out = std::fs::read_to_string(app.root.join("out.txt")).unwrap_or_default();
     let n = out.matches("<E>").count();
-    let ended = app.log_events().iter().any(|e| matches!(&e.kind, EventKind::SessionEnded { reason } if reason == "max_tool_calls_exceeded"));
-    if n > 32 || !ended {
-        report.violation("C16:tool_call_bound", json!({"harness": "c16.endless", "stateless_history": stateless}), &format!("endless-call script: {n} executions, ended with max_tool_calls_exceeded = {ended}"));
+    let requests = provider.received(key).len();
+    let events = app.log_events();
+    let tool_started = events.iter().filter(|e| matches!(&e.kind, EventKind::ToolStarted { .. })).count();
+    let ended = events.iter().any(|e| matches!(&e.kind, EventKind::SessionEnded { reason } if reason == "max_tool_calls_exceeded"));
+    let case = json!({"harness": "c16.endless", "stateless_history": stateless, "tool_choice": format!("{choice:?}")});
+    // every call - executed or refused - counts against the bound of 32 calls per run
+    if n > 32 || requests > 33 || tool_started > 32 || !ended {
+        report.violation(
+            &format!("C16:tool_call_bound:{choice:?}"),
+            case.clone(),
+            &format!("a provider that answers every tool result with another call: {requests} requests, {tool_started} calls started, {n} executions, ended with max_tool_calls_exceeded = {ended}"),
+        );
+    }
+    if !allowed(choice, "write") && n > 0 {
+        report.violation(&format!("C16:barred_tool_ran:endless:{choice:?}"), case, &format!("write is barred by tool_choice {choice:?} and ran {n} times"));
     }
     report.count("endless_executions", n as u64);
     provider.forget(key);
@@ -440,10 +487,10 @@ pub fn run(opts: Opts) -> i32 {
     report.set_rule(
         "scripts: every set of 0..2 (quick) / 0..3 (thorough) distinct function-call items from {write A, write B (append, so a double \
          execution is visible), read, unknown tool, invalid arguments} x argument delivery {done item, deltas, arguments.done, superseded \
-         deltas then done} x output_index {in order, reversed, missing (ties)} x duplicates {none, repeated done, shared call id} x \
+         deltas then done} x output_index {in order, reversed, missing (ties)} x duplicates {none, repeated done, shared call id, a call id coming back on a non-adjacent third item} x \
          {[DONE], none} x item ids {present, missing}; tool_choice in {auto, none, required, function(write), function(read), \
          allowed[read], allowed[]} (all 7 on scripts with <=1 item, auto+none+function(read) otherwise in quick); both history modes; \
-         plus an endless-call script; judged on the requests the provider received, the appended file and the log",
+         plus an endless-call script under tool_choice {auto, none, function(read)} (executed and refused calls both count against the bound of 32); judged on the requests the provider received, the appended file and the log",
     );
     report.assume("reference: a call is completed by its output_item.done; distinct call ids, ordered by output_index with emission order breaking ties; a repeated done / shared call id denotes ONE call");
     let tier = report.tier();
@@ -477,8 +524,10 @@ pub fn run(opts: Opts) -> i32 {
             }
         });
         for stateless in [false, true] {
-            let n = counter.fetch_add(1, std::sync::atomic::Ordering::SeqCst);
-            run_endless(&report, &rt, &provider, &format!("c16e-{n}/v1/responses"), stateless);
+            for c in [Choice::Auto, Choice::NoneMode, Choice::FnRead] {
+                let n = counter.fetch_add(1, std::sync::atomic::Ordering::SeqCst);
+                run_endless(&report, &rt, &provider, &format!("c16e-{n}/v1/responses"), stateless, &c);
+            }
         }
     });
     report.finish()
